@@ -209,6 +209,8 @@ def witness_search(tier, seed):
                 sf["BPMS"] = "0.000=120.000"
                 sf["STOPS"] = "4.000=1.000"
                 sf["OFFSET"] = "0.5"
+                sf["DELAYS"] = "2.000=0.250"
+                sf["WARPS"] = "16.000=4.000"
                 if ver is None:
                     sf.pop("VERSION", None)
                 else:
@@ -227,8 +229,10 @@ def witness_search(tier, seed):
                 except Exception as e:
                     return dict(config=[skind, ver, ckind, which, state], detail=f"TimingData raised {e!r}")
                 src = ch if expect_chart else sf
-                exp = (BeatValues.from_str(src.get("BPMS")), BeatValues.from_str(src.get("STOPS")), Decimal(src.get("OFFSET") or 0))
-                if (td.bpms, td.stops, td.offset) != exp:
+                exp = (BeatValues.from_str(src.get("BPMS")), BeatValues.from_str(src.get("STOPS")), Decimal(src.get("OFFSET") or 0),
+                       BeatValues.from_str(src.get("DELAYS")), BeatValues.from_str(src.get("WARPS")))
+                got = (td.bpms, td.stops, td.offset, td.delays, td.warps)
+                if got != exp:
                     return dict(config=[skind, ver, ckind, which, state],
-                                detail=f"TimingData took bpms={td.bpms} stops={td.stops} offset={td.offset}, expected everything from the {'chart' if expect_chart else 'simfile'}")
+                                detail=f"TimingData took bpms={td.bpms} stops={td.stops} delays={td.delays} warps={td.warps} offset={td.offset}, expected everything from the {'chart' if expect_chart else 'simfile'}")
     return None
